@@ -121,6 +121,7 @@ string `s` and every well-formed table. -/
 theorem roundtrip_encode_decode {rm : RangeMap} (h : WF rm) (s b : List Nat)
     (he : encodeSpec rm s = .ok b) : decode rm b = .ok s := by
   obtain ⟨us, hus, hs, hb⟩ := convLoop_ok_inv _ _ _ _ _ _ _ he
+  subst hs hb
   -- flip the units
   have key := convLoop_units (decodeRune rm) true rm.inE.length []
     (us.map fun p => (p.2, p.1))
@@ -129,10 +130,9 @@ theorem roundtrip_encode_decode {rm : RangeMap} (h : WF rm) (s b : List Nat)
       simp only [List.mem_map] at hp
       obtain ⟨q, hq, rfl⟩ := hp
       exact decode_isUnit h q.2 q.1 ((encodeRuneSpec_iff h q.1 q.2).1 (hus q hq).1))
-    [] (b.length + 1) (by simp [hb, List.map_map, Function.comp_def])
+    [] ((us.map (·.2)).flatten.length + 1) (by simp [List.map_map, Function.comp_def])
   simp only [List.map_map, Function.comp_def, List.append_nil] at key
   unfold decode
-  rw [hb, hs]
   simp only [List.length_nil, Nat.zero_add] at key
   rw [key]
   simp [convLoop, Res.prepend]
@@ -142,6 +142,7 @@ loop, with any spare capacity behind the slice) and the Spec map back to the sam
 theorem roundtrip_decode_encode {rm : RangeMap} (h : WF rm) (b s extra : List Nat)
     (hd : decode rm b = .ok s) : encode rm s extra = .ok b ∧ encodeSpec rm s = .ok b := by
   obtain ⟨us, hus, hb, hs⟩ := convLoop_ok_inv _ _ _ _ _ _ _ hd
+  subst hb hs
   have e1 := convLoop_units (encodeRune rm) false rm.inE.length extra
     (us.map fun p => (p.2, p.1))
     (by
@@ -149,7 +150,7 @@ theorem roundtrip_decode_encode {rm : RangeMap} (h : WF rm) (b s extra : List Na
       simp only [List.mem_map] at hp
       obtain ⟨q, hq, rfl⟩ := hp
       exact encode_isUnit h q.2 q.1 (encodeRune_decodeRune h q.1 q.2 (hus q hq).1).1)
-    [] (s.length + 1) (by simp [hs, List.map_map, Function.comp_def])
+    [] ((us.map (·.2)).flatten.length + 1) (by simp [List.map_map, Function.comp_def])
   have e2 := convLoop_units (encodeRuneSpec rm) true rm.inE.length []
     (us.map fun p => (p.2, p.1))
     (by
@@ -157,10 +158,10 @@ theorem roundtrip_decode_encode {rm : RangeMap} (h : WF rm) (b s extra : List Na
       simp only [List.mem_map] at hp
       obtain ⟨q, hq, rfl⟩ := hp
       exact encodeSpec_isUnit h q.2 q.1 ((encodeRuneSpec_iff h q.2 q.1).2 (hus q hq).1))
-    [] (s.length + 1) (by simp [hs, List.map_map, Function.comp_def])
+    [] ((us.map (·.2)).flatten.length + 1) (by simp [List.map_map, Function.comp_def])
   simp only [List.map_map, Function.comp_def, List.append_nil, List.length_nil, Nat.zero_add] at e1 e2
   unfold encode encodeSpec
-  rw [hs, hb, e1, e2]
+  rw [e1, e2]
   simp [convLoop, Res.prepend]
 
 /-- **Every representable string converts.** If `s` is a concatenation of representable
@@ -194,7 +195,8 @@ theorem representable_converts {rm : RangeMap} (h : WF rm) (us : List (List Nat 
     (fun p hp => ⟨encodeSpec_isUnit h p.1 p.2 (hus p hp), hpos p hp⟩) []
     ((us.map (·.1)).flatten.length + 1) (by simp)
   simp only [List.append_nil, List.length_nil, Nat.zero_add] at e1 e2 e3 e4
-  have e5 := roundtrip_encode_decode h _ _ (by unfold encodeSpec; rw [e2]; simp [convLoop, Res.prepend])
+  have e5 := roundtrip_encode_decode h (us.map (·.1)).flatten (us.map (·.2)).flatten
+    (by unfold encodeSpec; rw [e2]; simp [convLoop, Res.prepend])
   refine ⟨?_, ?_, ?_, ?_, e5⟩
   · unfold encode; rw [e1]; simp [convLoop, Res.prepend]
   · unfold encodeSpec; rw [e2]; simp [convLoop, Res.prepend]
@@ -205,7 +207,7 @@ theorem representable_converts {rm : RangeMap} (h : WF rm) (us : List (List Nat 
 example : encodeSpec Generated.C30.latin1 [104, 0xC3, 0xA9, 108, 108, 111, 0xE2, 0x82, 0xAC]
       = .ok [104, 0xE9, 108, 108, 111, 0x80] ∧
     decode Generated.C30.latin1 [104, 0xE9, 108, 108, 111, 0x80]
-      = .ok [104, 0xC3, 0xA9, 108, 108, 111, 0xE2, 0x82, 0xAC] := by decide
+      = .ok [104, 0xC3, 0xA9, 108, 108, 111, 0xE2, 0x82, 0xAC] := by decide +kernel
 
 /-! ### No crash -/
 
@@ -287,5 +289,85 @@ theorem replace_eq_spec_partial {rm : RangeMap} (h : WF rm) (s : List Nat)
   cases ho : overflowUnit rm u with
   | false => rfl
   | true => exact absurd ⟨p, u, t, hs, ho⟩ h2
+
+/-! ### Regenerated facts -/
+
+/-- **Every `RangeMap` table of the compiled code is well-formed** (shapes, place-value
+multipliers, disjoint boxes, prefix-freeness, both directions list the same entries). A changed
+table entry or multiplier breaks this obligation. -/
+theorem wf_all : Generated.C30.tables.all (fun p => wfB p.2) = true := by decide +kernel
+
+theorem wf_table (name : String) (rm : RangeMap) (h : (name, rm) ∈ Generated.C30.tables) : WF rm := by
+  have := wf_all
+  rw [List.all_eq_true] at this
+  exact wf_of_wfB rm (this (name, rm) h)
+
+/-- The entries whose UTF-8 box is larger than their charset box (the only places where
+`encode_overflow_unit` can occur): UTF-8 encoded surrogates in utf16/utf32 and code points beyond
+U+10FFFF in utf32. Any other entry of any table is tight. -/
+theorem loose_entries :
+    Generated.C30.tables.filterMap (fun p =>
+      if (looseEntries p.2).isEmpty then none
+      else some (p.1, (looseEntries p.2).map fun e => (e.inR, e.outR))) =
+    [("utf16", [([(16, 215), (0, 255)], [(225, 237), (128, 191), (128, 191)])]),
+     ("utf32", [([(0, 0), (0, 0), (16, 215), (0, 255)], [(225, 237), (128, 191), (128, 191)]),
+                ([(0, 0), (4, 16), (0, 255), (0, 255)], [(241, 244), (128, 191), (128, 191), (128, 191)])])] := by
+  decide +kernel
+
+/-- Shape of the loops and the list of character sets with an encoder, as read from the source
+(`Encode`'s guard flag is not asserted: the driver's Impl model follows it). -/
+theorem facts_match :
+    Generated.C30.decodeHasLengthGuard = true ∧
+    Generated.C30.loopBounds_Decode = ["len(rm.inputEntries)"] ∧
+    Generated.C30.loopBounds_Encode = ["len(rm.inputEntries)"] ∧
+    Generated.C30.loopBounds_EncodeReplaceUnknown = ["len(rm.inputEntries)", "len(str)"] ∧
+    Generated.C30.charsets =
+      [("armscii8", "rangemap"), ("ascii", "rangemap"), ("binary", "native"), ("cp1256", "rangemap"),
+       ("cp1257", "rangemap"), ("dec8", "rangemap"), ("geostd8", "rangemap"), ("latin1", "rangemap"),
+       ("latin7", "rangemap"), ("swe7", "rangemap"), ("utf16", "rangemap"), ("utf32", "rangemap"),
+       ("utf8mb3", "rangemap"), ("utf8mb4", "native")] ∧
+    Generated.C30.tables.map (·.1) =
+      ((Generated.C30.charsets.filter (·.2 == "rangemap")).map (·.1)) := by
+  decide
+
+/-! ### Findings on the unchanged tree (witnesses on the regenerated tables) -/
+
+/-- F-C30-a. `Encode` panics on an unrepresentable/ill-formed unit close to the end of the
+string: latin1, the single byte `E9` (reached by `SELECT HEX(CONVERT('é' USING latin1))`), and
+the character `Ā` (`C4 80`). The Spec reports failure. -/
+theorem finding_encode_unrepresentable_tail :
+    ∃ rm s, WF rm ∧ encode rm s [] = .crash ∧ encodeSpec rm s = .fail :=
+  ⟨Generated.C30.latin1, [0xE9], wf_of_wfB _ (by decide +kernel), by decide +kernel, by decide +kernel⟩
+
+example : encode Generated.C30.latin1 [0xC4, 0x80] [] = .crash ∧
+    encode Generated.C30.latin1 [97, 0xC4, 0x80, 98] [] = .crash ∧
+    encode Generated.C30.latin1 [0xC4, 0x80, 97, 98, 99] [] = .fail := by decide +kernel
+
+/-- With spare capacity behind the slice the same loop reads bytes that are not part of the
+string: `C3` followed (outside the slice) by `A9` panics, followed by `00` it does not. -/
+example : encode Generated.C30.latin1 [0xC3] [0xA9] = .crash ∧
+    encode Generated.C30.latin1 [0xC3] [0, 0, 0] = .fail := by decide +kernel
+
+/-- `Encode` accepts UTF-8 encoded surrogates (utf16) / code points beyond U+10FFFF (utf32) and
+produces bytes that do not decode back. -/
+theorem finding_encode_overflow_unit :
+    ∃ rm s b, WF rm ∧ encode rm s [] = .ok b ∧ decode rm b ≠ .ok s ∧ encodeSpec rm s = .fail :=
+  ⟨Generated.C30.utf16, [0xED, 0xA0, 0x80], [0xD8, 0x00], wf_of_wfB _ (by decide +kernel),
+    by decide +kernel, by decide +kernel, by decide +kernel⟩
+
+example : encode Generated.C30.utf32 [0xF4, 0x90, 0x80, 0x80] [] = .ok [1, 4, 0, 0] ∧
+    decode Generated.C30.utf32 [1, 4, 0, 0] = .fail := by decide +kernel
+
+/-- `EncodeReplaceUnknown` replaces *two* characters (`Ā`, `b`) by a single `?`. -/
+theorem finding_replace_tail_collapse :
+    ∃ rm s, WF rm ∧ replace rm s = .ok [63] ∧ replaceSpec rm s = .ok [63, 98] :=
+  ⟨Generated.C30.latin1, [0xC4, 0x80, 98], wf_of_wfB _ (by decide +kernel), by decide +kernel, by decide +kernel⟩
+
+/-- Non-vacuity of the partial theorems: a string with an unrepresentable character far from
+the end is outside the regions' effect (Impl = Spec = report / one `?`). -/
+example : encode Generated.C30.latin1 [0xC4, 0x80, 97, 98, 99] [] =
+      encodeSpec Generated.C30.latin1 [0xC4, 0x80, 97, 98, 99] ∧
+    replace Generated.C30.latin1 [0xC4, 0x80, 97, 98, 99] = .ok [63, 97, 98, 99] ∧
+    replaceSpec Generated.C30.latin1 [0xC4, 0x80, 97, 98, 99] = .ok [63, 97, 98, 99] := by decide +kernel
 
 end Gms.C30
